@@ -251,6 +251,37 @@ func sortStrings(s []string) {
 	}
 }
 
+// CloseWhileBusy calls Server.Close on another goroutine and returns once that call has either returned or is
+// waiting for the commands in flight (its goroutine is parked inside Close): whatever Close does to the
+// connections before it waits has been done by then. For use from inside a handler.
+func CloseWhileBusy(srv *wire.Server) {
+	returned := make(chan struct{})
+	go func() {
+		defer close(returned)
+		srv.Close()
+	}()
+	deadline := time.Now().Add(memnet.Watchdog)
+	buf := make([]byte, 1<<20)
+	for time.Now().Before(deadline) {
+		select {
+		case <-returned:
+			return
+		default:
+		}
+		n := runtime.Stack(buf, true)
+		for _, g := range strings.Split(string(buf[:n]), "\n\n") {
+			if !strings.Contains(g, "psql-wire.(*Server).Close") {
+				continue
+			}
+			head, _, _ := strings.Cut(g, "\n")
+			if !strings.Contains(head, "[running]") && !strings.Contains(head, "[runnable]") {
+				return
+			}
+		}
+		time.Sleep(100 * time.Microsecond)
+	}
+}
+
 // LibraryBlocked inspects all goroutine stacks and reports whether some
 // goroutine with psql-wire frames is in a blocked state (used to classify a
 // watchdog expiry as a real wedge instead of an engine problem).
